@@ -11,7 +11,7 @@ from checks import stanza_common as SC, stack_common as ST
 
 PROPERTY = "C17"
 LEVEL = "model_checking"
-CODE = ["yowsup/axolotl/store/sqlite/liteidentitykeystore.py:isTrustedIdentity/saveIdentity", "yowsup/axolotl/manager.py:create_session/trust_identity/encrypt/decrypt_pkmsg",
+CODE = ["sx/symsql.py (pin-crash case)", "yowsup/axolotl/store/sqlite/liteidentitykeystore.py:isTrustedIdentity/saveIdentity", "yowsup/axolotl/manager.py:create_session/trust_identity/encrypt/decrypt_pkmsg",
         "yowsup/layers/axolotl/layer_base.py:getKeysFor", "yowsup/layers/axolotl/layer_receive.py:handleEncMessage (untrusted branch)", "yowsup/layers/axolotl/layer_send.py:on_get_keys_process_errors"]
 BOUNDS = {"quick": "all histories of <= 3 events over {bundle A, bundle B, first message A, first message B, outgoing message, restart} x auto-trust on/off, 3 parties",
           "thorough": "histories of <= 5 events"}
